@@ -73,6 +73,13 @@ def _reply_eq(i, m):
         return i.startswith('8:') and i[2:6] == '%04x' % code
     return i == m
 
+def _close_vs_closed(ie, me, model):
+    """A peer's Close frame in the middle of a compressed message ends the read either with the CloseError itself or -- when the
+    inflater still had output to hand over at that moment, so that the error surfaces one Read later, after Conn.close() --
+    with net.ErrClosed.  Which of the two depends on flate's internal buffering; the model (which pulls eagerly) picks one."""
+    pair = {ie.split(':')[0], me.split(':')[0]}
+    return pair == {'connerr', 'close'} and any(x.startswith('8:') for x in (model.get('replies') or '').split(','))
+
 def cmp_wirein(prop, case, impl, model):
     if 'PANIC' in impl:
         return [('violation', 'wire-in:panic', 'the library panicked: ' + impl['PANIC'][:300])]
@@ -105,9 +112,9 @@ def cmp_wirein(prop, case, impl, model):
                 fm = '' if fm == '-' else fm
                 if fi == '?' or fm == '?' or not fm.startswith(fi):
                     out.append(('violation', 'wire-in:partial-data-not-a-prefix', 'failing message %d handed out %s bytes fnv %s, reference %s bytes fnv %s' % (k, a[1][0], a[1][1], b[1][0], b[1][1])))
-                elif a[2] != b[2]:
+                elif a[2] != b[2] and not _close_vs_closed(a[2], b[2], model):
                     out.append(('disagree', 'wire-in:error-class', 'message %d failed with %s, model %s' % (k, a[2], b[2])))
-            else:
+            elif not _close_vs_closed(a[2], b[2], model):
                 out.append(('disagree', 'wire-in:error-class', 'message %d failed with %s, model %s' % (k, a[2], b[2])))
         elif a[0] == 'R' and b[0] == 'R':
             if a[1] != 'err' and b[1] == 'err':
@@ -133,7 +140,12 @@ def cmp_wirein(prop, case, impl, model):
             lazy_ok = last is not None and last[0] == 'M' and last[2] in ('limit', 'other') and pm[:len(pi)] == pi
             ci = [x for x in ir if x.startswith('8:')]
             cm = [x for x in mr if x.startswith('8:')]
-            if lazy_ok and len(ci) == len(cm) and all(_reply_eq(a, b) for a, b in zip(ci, cm)):
+            readahead = last is not None and last[0] == 'M' and last[2] == 'other' and model.get('zcorrupt') == '1' and len(ir) < len(mr) and all(_reply_eq(a, b) for a, b in zip(ir, mr))
+            if readahead:
+                # the inflater met corrupt data: the library stops there; the model, which pulls the whole message first, also
+                # processed the frames behind the corrupt point (a Pong, or a Close frame for a bad header): replies are a prefix
+                pass
+            elif lazy_ok and len(ci) == len(cm) and all(_reply_eq(a, b) for a, b in zip(ci, cm)):
                 # the model pulls a compressed message eagerly; the library stops pulling at the limit / corrupt data:
                 # the Pongs it wrote are a prefix of the model's (same order, same payloads)
                 pass
@@ -320,6 +332,37 @@ def cmp_life(prop, case, impl, model):
             out.append(('disagree', 'life:model-goroutines:' + scen, model.get('goroutines')))
     return out
 
+def cmp_ping(prop, case, impl, model):
+    if 'PANIC' in impl:
+        return [('violation', 'ping:panic', impl['PANIC'][:300])]
+    if 'dialerr' in impl or 'modelerror' in model:
+        return [('disagree', 'ping:setup', str(impl.get('dialerr')) + ' ' + str(model.get('modelerror'))[:300])]
+    out = []
+    script = case.get('script', '').split('/')
+    if model.get('distinct') != 'true':
+        out.append(('violation', 'ping:payloads-not-distinct', 'two Ping calls used the same payload: ' + str(impl.get('pings'))))
+    if int(model.get('npings', '0')) != len(script):
+        out.append(('disagree', 'ping:frames', 'the peer saw %s Ping frames for %d calls' % (model.get('npings'), len(script))))
+    ir, mr = impl.get('res', ''), model.get('res', '')
+    if ir != mr and not out:
+        if case.get('mode') == 'seq':
+            for k, (a, b) in enumerate(zip(ir.split(','), mr.split(','))):
+                if a == '1' and b == '0':
+                    out.append(('violation', 'ping:nil-without-own-pong', 'Ping call %d returned nil although no Pong carrying its payload was sent (reaction %r)' % (k, script[k] if k < len(script) else '?')))
+                    break
+                if a == '0' and b == '1':
+                    out.append(('violation', 'ping:own-pong-not-recognised', 'Ping call %d failed although a Pong with its payload was sent (reaction %r)' % (k, script[k] if k < len(script) else '?')))
+                    break
+        else:
+            ni, nm = int(ir[2:] or 0), int(mr[2:] or 0)
+            if ni > nm:
+                out.append(('violation', 'ping:nil-without-own-pong', '%d concurrent Ping calls returned nil, only %d were sent a Pong with their payload' % (ni, nm)))
+            else:
+                out.append(('violation', 'ping:own-pong-not-recognised', '%d concurrent Ping calls returned nil, %d were sent a Pong with their payload' % (ni, nm)))
+    if impl.get('later') != '1' and not out:
+        out.append(('violation', 'ping:connection-unusable-afterwards', 'a final Ping with an exact Pong failed'))
+    return out
+
 def cmp_pools(prop, case, impl, model):
     if 'PANIC' in impl:
         return [('violation', 'pools:panic', impl['PANIC'][:300])]
@@ -342,6 +385,7 @@ def cmp_pools(prop, case, impl, model):
 COMPARE = {
     'pools': cmp_pools,
     'life': cmp_life,
+    'ping': cmp_ping,
     'netconn': cmp_netconn,
     'wsjson': cmp_wsjson,
     'sched': cmp_sched,
@@ -362,7 +406,7 @@ def nontrivial(suite, case, impl):
         return n >= 4
     if suite == 'wire-in':
         return case.get('ops', '').count('R') > 1 and len(case.get('stream', '')) > 16
-    if suite in ('pair', 'hs-accept', 'hs-dial', 'sched', 'wsjson', 'life'):
+    if suite in ('pair', 'hs-accept', 'hs-dial', 'sched', 'wsjson', 'life', 'ping'):
         return True
     if suite == 'pools':
         return case.get('hist', '').count('msg:') >= 2
@@ -615,12 +659,18 @@ PROPS = {
         technique='Coq proof + differential run (limits -1,0,1,125,1000,65536,default; sizes limit-1..much larger; bombs)',
     ),
     'C15': dict(
-        suites=['wire-in'], rule=WIREIN_RULE, trusted=COMMON_TRUSTED + READER_TRUST,
-        assumptions=['the Ping/Pong matching of concurrent Ping calls is covered by the ping suite when present (not by this read-side model)'],
-        level_text='Theorems (read side): every received Ping is answered by one Pong with the identical payload, in order; Pongs change nothing on the wire. Pings of length 0..125 '
-                   'before, between and inside fragmented (compressed) messages are run through model and library and the Pongs compared.',
-        level_note='partial: the caller side (Ping returns only after its own Pong; concurrent pings) is pending.',
-        technique='Coq proof + differential run of the extracted Reader model vs the library',
+        suites=['wire-in', 'ping'],
+        rule=WIREIN_RULE + ' | ping suite: 1-6 Ping calls (sequential, or started together and answered in reverse order) on a library endpoint with a reader running, against a raw peer that answers each Ping frame by script: '
+             'exact Pong, withheld, duplicated, preceded by an unsolicited Pong, and ten near-miss payloads ("0"+p, "+"+p, p+" ", " "+p, p+"0", empty, "x"+p, last byte changed, first half, "zz") alone, before and after the exact Pong; '
+             'calls without an exact Pong get a 300 ms context and must fail; a final exactly echoed Ping must succeed. non-trivial = every ping case',
+        trusted=COMMON_TRUSTED + READER_TRUST + ['Model/Ping.v hand-written from conn.go Ping/ping and read.go handleControl(opPong); the ping payloads are read off the wire by the raw peer (the model takes them as given and checks that they are distinct)'],
+        assumptions=['ping payloads are distinct (int32 counter: for fewer than 2^32 pings per connection; checked on every run)',
+                     'when a Pong and the end of the context race, either result is allowed (the suite keeps them 300 ms apart)'],
+        level_text='Theorems (caller side, every event history of registrations, Pongs, context ends and a close): a Ping call returns nil only if a Pong carrying exactly its own payload was handled between its registration '
+                   'and its return (C15_ok_own_pong); a Pong completes exactly the waiting calls with that payload and leaves the others waiting (C15_own_pong_only); a Pong nobody waits for changes nothing; own Pong => nil, '
+                   'context end / close => error. (read side) every received Ping is answered by one Pong with the identical payload, in order, for every valid stream (C15_pongs_for_stream). Tie: per-call results against a scripted peer; Pongs written for streams.',
+        level_note='full on the models (Ping.v for matching, Reader.v for answering); wall-clock margins in the ping suite (300 ms).',
+        technique='Coq proofs (induction over event histories; stream-level reader theorem) + differential runs against a scripted raw peer',
     ),
     'C02': dict(
         suites=['wire-out'],
